@@ -60,7 +60,7 @@ def main():
     finally:
         run(["git", "-C", "/repo", "worktree", "remove", "--force", wt])
         # restore Generated/ from the real /repo
-        run([PY, "/verif/harness/extract.py"], env=dict(os.environ, PYTHONPATH="/verif/harness"))
+        run([PY, "-c", "import sys; sys.path.insert(0, '/verif/harness'); import lib\nwith lib.BuildLock(): lib.regenerate()"], env={k: v for k, v in os.environ.items() if k not in ("PYTHONPATH", "CURTSIES_REPO")})   # under the build lock: never while another run builds
     print(json.dumps(res, indent=1))
     return 0
 
